@@ -680,11 +680,27 @@ def run_family(pid, legs, tier, seed, model_pid="C05"):
             r.build_problems.append(("model-build", "ocaml driver", out[-3000:]))
         r.model_exe = exe
     can_run = r.can_run()
+    extra = {}
     if can_run:
         r.replay_findings({l.name: l for l in legs})
         for leg in legs:
             r.run_leg(leg)
-    return r.finish(legs, trusted=TRUSTED, assumptions=ASSUME)
+        # how many of the generated programs lie inside the guards of the positive theorems (C05_define_local_partial,
+        # C14_complete_locals_partial: fragment + Laid2 layout + no re-pointing assignment)?  Model side only.
+        import random
+        rng = random.Random(seed * 31 + 7)
+        progs = []
+        for _ in range(300 if tier != "thorough" else 5000):
+            ws = gen_workspace(rng, multi=1)
+            progs.append(make_case([(fn, text) for fn, text, _ in ws], []))
+        outs = vlib.run_worker([r.model_exe, "c05.laid"], progs, 0.5)
+        cnt = {}
+        for o in outs:
+            k = o.split("\t")[0]
+            cnt[k] = cnt.get(k, 0) + 1
+        inside = sum(v for k, v in cnt.items() if k == "frag+laid+laid2+norepoint")
+        extra = {"theorem_guard_statistics": {"programs": len(progs), "inside_all_guards": inside, "by_guard_vector": cnt}}
+    return r.finish(legs, extra_cov=extra, trusted=TRUSTED, assumptions=ASSUME)
 
 
 LEGS = [
